@@ -637,7 +637,8 @@ def chunking_cases(maxcuts):
 
 
 CMDS = [b'', b'a', b'ver', b'version', b'block', b'blocks', b'getheaders', b'123456789012',
-        b'\0lead', b'in\0side', b'\xff\xfe']
+        b'\0lead', b'in\0side', b'\xff\xfe', b'sp ', b'tab\t', b'nl\n', b' lead', b'0', b'\x01',
+        b'eleven  ..\r', b'BLOCK', b'block ']
 
 
 def random_payload(rng, mp, mb, cmd):
@@ -689,7 +690,7 @@ def random_stream_case(rng):
 
 def random_command(rng, trailing_nul=False):
     n = rng.randint(0, 12)
-    c = bytes(rng.choice(b'abxyz\x00\x00\xff0') for _ in range(n))
+    c = bytes(rng.choice(b'abxyz\x00\x00\xff0 \t\n') for _ in range(n))
     if trailing_nul:
         c = c[:rng.randint(0, 11)] + b'\0'
     else:
